@@ -46,6 +46,9 @@ def extra_scenarios(tier, seed):
         # the caller's Auth object was used before in an exchange that failed at the server signature
         for s in scripts:
             out.append(dict(kind='adv', mech=mech, script=s, prior='authobj', sent=[], ok=(s == scripts[-1])))
+        # ... or in an exchange that was complete and successful: the adversary of the next connection knows a genuine server signature
+        for s in scripts + [['staleFinal', 'staleFinal', 'ok235'], ['keyedFinal', 'ok235'], ['zeroKeyFinal', 'ok235']]:
+            out.append(dict(kind='adv', mech=mech, script=s, prior='authobjok', sent=[], ok=(s == scripts[-1])))
         # hand-written scripts with symbols outside the alphabet of the design model (prior = "hand": no prediction to compare with)
         for s in (['empty', 'validFirst', 'srvError', 'ok235'], ['empty', 'srvError', 'ok235'], ['srvError', 'ok235'],
                   ['empty', 'validFirst', 'empty', 'staleFinal', 'ok235'], ['empty', 'validFirst', 'srvError', 'validFinal', 'ok235']):
